@@ -309,7 +309,7 @@ def make_tree(leaves, flags, side):
 
 
 VALID_TREE = {"rs": "v", "ri": 6, "re": "e", "sub": {"rl": [3], "rd": {"z": 1}, "rle": [1], "deep": {"r": "d"}}, "items": [{"r": "p", "n": 1}]}
-PRIORS = ["fresh", "valid-loaded", "assigned", "reset"]
+PRIORS = ["fresh", "valid-loaded", "assigned", "reset", "root-off"]
 
 
 def make_prior(schema, prior):
@@ -317,6 +317,12 @@ def make_prior(schema, prior):
     cfg = schema()
     st = fresh()
     if prior == "fresh":
+        return cfg, st
+    if prior == "root-off":
+        cfg.flag = False            # the root is disabled before the load; the tree may switch it on again
+        cfg.sub.enabled = False
+        st["flag"] = False
+        st["sub"]["enabled"] = False
         return cfg, st
     if prior in ("valid-loaded", "reset"):
         cfg.load_tree(copy.deepcopy(VALID_TREE))
